@@ -122,6 +122,11 @@ EXTRA={
             '//@ loop "for _, fieldName := range fieldNames" invariant m != nil',
             '//@ assertbefore "break" [C04] emptied: m.count == 0 && !dsc.ds.data.vdom[keyName]'],
  'diffWorker': ['//@ ghostentry gAcc = gEmptySet',
+            # C06: every operand is looked up (and so type-checked), also when the running result is already empty
+            '//@ ghostentry gOperandsSeen = 0',
+            '//@ ghostafter "sk2, objExists := dsc.getKeyObjectUnlocked(keyName)" : gOperandsSeen = gOperandsSeen + 1',
+            '//@ loop "for _, keyName := range keyNames" invariant [C06,C05] operands.seen: gOperandsSeen == ri1',
+            '//@ ensures [C06,C05] operands.all.checked: !wrongType ==> gOperandsSeen == len(keyNames)',
             '//@ requires free emptyset: allstr(q, !gEmptySet[q])',
             '//@ ghostafter "m2 := sk2.getSet()" : if m2 != nil : gSnapDom = d.vdom',
             '//@ ghostafter "m2 := sk2.getSet()" : if m2 != nil : gAccPrev = gAcc',
@@ -137,10 +142,15 @@ EXTRA={
             '//@ ensures internal [C05] difference: !wrongType ==> allstr(q, d.vdom[q] == (m.vdom[q] && !gAcc[q]))',
             '//@ ensures internal [C05] missing.first: !wrongType && !objExists ==> allstr(q, !d.vdom[q] && !m.vdom[q])',
             '//@ use newRedisDict.empty',
-            '//@ modifies ghost.gAcc ghost.gAccPrev ghost.gSnapDom',
+            '//@ modifies ghost.gAcc ghost.gAccPrev ghost.gSnapDom ghost.gOperandsSeen',
             '//@ use redisDictIter.next.view.skipped redisDictIter.next.view.done redisDictIter.next.view.unique',
             '//@ ensures [C05] result.scratch: !wrongType ==> d != nil && d.scratch'],
  'unionWorker': ['//@ ghostentry gAcc = gEmptySet',
+            # C06: every operand is looked up (and so type-checked), also when the running result is already empty
+            '//@ ghostentry gOperandsSeen = 0',
+            '//@ ghostafter "sk2, objExists := dsc.getKeyObjectUnlocked(keyName)" : gOperandsSeen = gOperandsSeen + 1',
+            '//@ loop "for _, keyName := range keyNames" invariant [C06,C05] operands.seen: gOperandsSeen == ri1',
+            '//@ ensures [C06,C05] operands.all.checked: !wrongType ==> gOperandsSeen == len(keyNames)',
             '//@ requires free emptyset: allstr(q, !gEmptySet[q])',
             '//@ ghostafter "m2 := sk2.getSet()" : if m2 != nil : gSnapDom = d.vdom',
             '//@ ghostafter "m2 := sk2.getSet()" : if m2 != nil : gAccPrev = gAcc',
@@ -154,7 +164,7 @@ EXTRA={
             '//@ loop "for i := m2.createIterator(); i.next();" invariant [C05] snap: allstr(q, gSnapDom[q] == (m.vdom[q] || gAccPrev[q])) && allstr(q, gAcc[q] == (gAccPrev[q] || m2.vdom[q]))',
             '//@ ensures [C05] operands: forall r *redisDict :: asref(r) < old(alloc()) ==> r.vdom == old(r.vdom) && r.vval == old(r.vval) && r.count == old(r.count)',
             '//@ ensures internal [C05] union: !wrongType ==> allstr(q, d.vdom[q] == (m.vdom[q] || gAcc[q]))',
-            '//@ modifies ghost.gAcc ghost.gAccPrev ghost.gSnapDom',
+            '//@ modifies ghost.gAcc ghost.gAccPrev ghost.gSnapDom ghost.gOperandsSeen',
             '//@ use redisDictIter.next.view.skipped redisDictIter.next.view.done redisDictIter.next.view.unique',
             '//@ ensures [C05] result.scratch: !wrongType ==> d != nil && d.scratch'],
  'intersectWorker': ['//@ ghostentry gAcc = gFullSet',
